@@ -262,6 +262,20 @@ let () =
         (hz m.m_length) (hz v.v_dataType) (hz v.v_ebMode) (hz v.v_b6) (hz v.v_b10) (hz v.v_szMode) (if reenc then 1 else 0) (if all_written enc then 1 else 0)
     | _ -> failwith "meta")
 
+(* ---------------- C03 ---------------- *)
+let () =
+  (* intk <type 2..9> <dims slowest first, size-1 dims removed> <e> <cap> <values as bit patterns> *)
+  reg "intk" (fun a -> match a with
+    | [ty; dims; e; cap; vals] ->
+      let tyz = z_of_hex ty in
+      let t = ity_of tyz in
+      let w = nat_of_int (match int_of_z tyz with 2 | 3 -> 1 | 4 | 5 -> 2 | 6 | 7 -> 4 | _ -> 8) in
+      let sg = (match int_of_z tyz with 3 | 5 | 7 | 9 -> true | _ -> false) in
+      let xs = List.map (fun u -> if sg then to_signed w u else u) (zlist_of_string vals) in
+      let ((rs, ev), unp) = recon_array (z_of_hex e) (z_of_hex cap) t (zlist_of_string dims) xs in
+      Printf.sprintf "ev=%d unpred=%s recon=%s" (if ev then 1 else 0) (hz unp) (sl (List.map (fun r -> if sg then to_unsigned w r else r) rs))
+    | _ -> failwith "intk")
+
 let () =
   (try
     while true do
